@@ -58,6 +58,12 @@ def cases(tier):
         out.append(("maxval", "B", area, math.copysign(mx, area), None))
         for beta in betas:
             out.append(("maxval", "K", area, math.copysign(mx, area), beta))
+    # boundary max_val for EVERY target duration in a range: just above / just below the peak of the d-ns window
+    hi = 260 if tier == "quick" else 1200
+    for d in range(17, hi):
+        for kind, beta in (("B", None), ("K", 14.0), ("K", 6.0)):
+            for sign in (1.0, -1.0) if d % 7 == 0 else (1.0,):
+                out.append(("maxval-boundary", kind, d, beta, sign))
     out.append(("maxval", "B", 1.0, -1.0, None))  # mismatched signs must be refused
     out.append(("maxval", "K", -1.0, 1.0, 14.0))
     for ph, post in itertools.product([-7.0, -math.pi, -1e-12, 0.0, 1.0, 2 * math.pi, 7.0, 100.0], [0.0, -1.0, 7.0]):
@@ -231,6 +237,29 @@ def check_maxval(kind, area, mx, beta):
     return out
 
 
+def check_maxval_boundary(kind, d, beta, sign):
+    """max_val placed just above the peak of the d-ns window of area pi: from_max_val must then return a window that is
+    within max_val and tight; placed just below: the result must be longer than d."""
+    from pulser.waveforms import BlackmanWaveform, KaiserWaveform
+
+    area = sign * math.pi
+    mk = (lambda D: BlackmanWaveform(D, area)) if kind == "B" else (lambda D: KaiserWaveform(D, area, beta))
+    pk = float(np.max(np.abs(S(mk(d)))))
+    out = []
+    for side, mx in (("above", pk * (1 + 1e-7)), ("below", pk * (1 - 1e-7))):
+        wf = BlackmanWaveform.from_max_val(sign * mx, area) if kind == "B" else KaiserWaveform.from_max_val(sign * mx, area, beta)
+        s = S(wf)
+        D = wf.duration
+        tag = f"{kind}:{'even' if d % 2 == 0 else 'odd'}-target"
+        if np.max(np.abs(s)) > mx * (1 + 1e-12):
+            out.append((f"C16:from-max-val-exceeds:{tag}", f"target {d} ns ({side}): duration {D} peaks at {np.max(np.abs(s))} > {mx}"))
+        if not math.isclose(float(np.sum(s)) * 1e-3, area, rel_tol=1e-9):
+            out.append((f"C16:from-max-val-area:{tag}", f"target {d} ns ({side})"))
+        if float(np.max(np.abs(S(mk(D - 1))))) <= mx * (1 - 1e-12):
+            out.append((f"C16:from-max-val-not-tight:{tag}", f"max_val just {side} the peak of the {d} ns window: duration {D} chosen although {D - 1} ns also fits"))
+    return out
+
+
 def check_pulse(ph, post):
     from pulser import Pulse
     from pulser.waveforms import ConstantWaveform, RampWaveform
@@ -305,6 +334,8 @@ def worker(case):
             return check_wf(case[1])
         if k == "maxval":
             return check_maxval(*case[1:])
+        if k == "maxval-boundary":
+            return check_maxval_boundary(*case[1:])
         if k == "pulse":
             return check_pulse(*case[1:])
         if k == "pulse-bad":
